@@ -85,6 +85,9 @@ func Run() (err error) {
 		fmt.Fprintln(&extraScript, "end")
 		if err := func() error {
 			rd, _ := newReaderFromString("<command line>", extraScript.String())
+			// An include directive given on the command line searches
+			// the -I directories like one in a file.
+			rd.includePath = cfg.includePath
 			defer rd.close()
 			err := cfg.parseCfg(ctx, rd)
 			collectDiffs(rd.diffs)
@@ -103,6 +106,7 @@ func Run() (err error) {
 		}
 		fmt.Fprintln(&extraInterpretation, "end")
 		rd, _ := newReaderFromString("<command line>", extraInterpretation.String())
+		rd.includePath = cfg.includePath
 		if err = cfg.parseCfg(ctx, rd); err != nil {
 			log.Errorf(ctx, "parse error: %+v", err)
 			return err
